@@ -200,3 +200,50 @@ def first_divergence(v, d, cfg, binary, scripts, trace_path, ninst=1, invs=()):
     kind = "rejected" if st1["maxl"] != st1["nl"] + 1 else ("property" if st1.get("pviol", 0) else "none")
     return {"exec_index": idx, "script": scripts[idx], "trace": tl, "last_matched": st1["maxl"] - 1, "prop_line": st1.get("pviol", 0),
             "kind": kind, "repeats": not st1["accepted"], "nl": st1["nl"]}, st
+
+
+# ---------------------------------------------------------------- TLC-generated suites (shortest input script per reachable quiescent state)
+def path_to_script(path):
+    """path: list of records emitted by the model in mc mode -> script lines of one execution"""
+    lines = ["reset"]; cur = None; gv = {}; plan = []
+    ng = 0
+    def flush():
+        if cur is None: return
+        n = max([int(g[1:]) for g in gv] + [0])
+        gvs = "".join("1" if gv.get("g%d" % k) else "0" for k in range(1, n + 1)) or "-"
+        pl = ",".join(plan) or "-"
+        op = cur["call"]
+        if op == "pe": lines.append("pe %d %s %d %s %s" % (cur["i"], cur["e"], cur["p"], gvs, pl))
+        elif op == "enq": lines.append("enq %d %s %d" % (cur["i"], cur["e"], cur["p"]))
+        elif op in ("start", "stop", "drain", "drain1"): lines.append("%s %d %s %s" % (op, cur["i"], gvs, pl))
+        elif op in ("copy", "assign"): lines.append("%s %d %d" % (op, cur["i"], cur["p"]))
+        elif op == "saveload": lines.append("saveload %d %d text" % (cur["i"], cur["p"]))
+    for rec in path:
+        if "call" in rec:
+            flush(); cur = rec; gv = {}; plan = []
+        else:
+            if rec["k"] == "g": gv[rec["g"]] = rec["r"]
+            d = rec["d"]
+            if d["op"] == "throw": plan.append("%d:throw" % rec["cb"])
+            elif d["op"] in ("pe", "enq"): plan.append("%d:%s:%s:%s:%d" % (rec["cb"], d["op"], d["on"], d["e"], d["p"]))
+    flush()
+    return lines
+
+def tlc_suite(v, d, cfg, mcp, name):
+    """run the model in mc mode and collect one script per distinct quiescent state (BFS: a shortest one)"""
+    import re
+    extra = 'EmitPath == (pc = "M1" /\\ stack = <<>>) => PrintT(<<"PATH", ToJson(path)>>)'
+    n = tlc.write_mc(v.dir, d.name, cfg, "mc", v.vars, maxcalls=mcp["maxcalls"], budget=mcp["budget"], apis=mcp["apis"], dirops=mcp["dirops"],
+                     direvs=mcp["direvs"], ninst=mcp.get("ninst", 1), percall=mcp.get("percall", True), invariants=[], name=name, extra_defs=extra, constraint="EmitPath")
+    rc, out, t = tlc.run_tlc(v.dir, n, workers=1, timeout=1500, heap="6g")
+    if rc != 0:
+        raise ToolError("suite generation failed for %s/%s (rc=%d):\n%s" % (d.name, cfg, rc, out[-2000:]))
+    scripts = []
+    seen = set()
+    for m in re.finditer(r'<<"PATH", "(.*)">>', out):
+        js = m.group(1).replace('\\"', '"')
+        sc = path_to_script(json.loads(js))
+        key = "\n".join(sc)
+        if key not in seen and len(sc) > 1:
+            seen.add(key); scripts.append(sc)
+    return scripts, tlc.parse_stats(out)
